@@ -326,6 +326,31 @@ func runCompile(f []string) string {
 	})
 }
 
+// CheckLintAccepts: the lint parser (same command config, no switches, no fonts) accepts every source the normal parser
+// accepts (C18). Only the parsers are run: lint mode is a mode of the parser.
+func CheckLintAccepts(f []string) string {
+	sw := parseSw(f[2])
+	cfg := cfgOf(f[4])
+	fpath := fontPath(f[5])
+	clifont := f[6]
+	var climax int
+	fmt.Sscan(f[7], &climax)
+	src := Unhex(f[9])
+	msg := guarded(func() string {
+		if _, e := parser.New(lexer.New(src), cfg, fpath, clifont, climax, sw).ParseProgram(); e != nil {
+			return ""
+		}
+		if _, e := parser.NewLintParser(lexer.New(src), cfg).ParseProgram(); e != nil {
+			return fmt.Sprintf("the normal parser accepts this source (switches %s) but the lint parser rejects it: %s: %q", f[2], e.Error(), src)
+		}
+		return ""
+	})
+	if strings.HasPrefix(msg, "PANIC\t") || strings.HasPrefix(msg, "HANG\t") {
+		return "" // reported by the crash oracle on the same input
+	}
+	return msg
+}
+
 func runLex(f []string) string {
 	src := Unhex(f[0])
 	return guarded(func() string {
@@ -466,6 +491,11 @@ func WriteAll(w *os.File, cases []Case) {
 			}
 		}
 		pending = nil
+		if c.Kind == "CASE" && strings.Contains(oracles, "lintacc") && c.Fields[1] == "0" {
+			if msg := CheckLintAccepts(c.Fields); msg != "" {
+				fmt.Fprintln(w, "GOFAIL\tlintacc\t"+strings.ReplaceAll(msg, "\t", " "))
+			}
+		}
 		if c.Kind == "FMT" && strings.Contains(oracles, "fmt") {
 			if msg := CheckFmt(c.Fields, res); msg != "" {
 				fmt.Fprintln(w, "GOFAIL\tfmt\t"+strings.ReplaceAll(msg, "\t", " "))
